@@ -234,8 +234,8 @@ struct Run {
 		{
 			Target target; t = &target;
 			target.share();
-			for(int i = 0; i < nInitial; ++i) handles[i] = target.append(0, Cb{this, i});
 			try {
+				for(int i = 0; i < nInitial; ++i) handles[i] = target.append(0, Cb{this, i});
 				size_t base = 0;
 				for(size_t th = 0; th < cfg.threads.size(); ++th) {
 					size_t b = base, n = cfg.threads[th].size(); int tn = (int)th + 1;
